@@ -230,7 +230,7 @@ fn gen(seed: u64, _tier: Tier) -> Plan11 {
         }
         4..=7 => {
             let field = *rng.pick(&["f64", "f128", "f255", "p2"]);
-            let mode = *rng.pick(&["vec", "vec", "generate"]);
+            let mode = if matches!(field, "f64" | "f255") { *rng.pick(&["vec", "vec", "generate", "pair"]) } else { *rng.pick(&["vec", "vec", "generate"]) };
             // script: chunks with over-modulus values at chosen buffer slots
             let nchunks = 1 + rng.usize_below(100);
             let mut bad = vec![false; nchunks];
@@ -395,6 +395,18 @@ fn sampler_case<F: FieldElement + IdpfValue<ValueParameter = ()>>(ctx: &mut Ctx,
         if mode == "vec" {
             let v: Vec<F> = (&mut rng).into_field_vec(count);
             v.iter().map(|x| x.get_encoded().unwrap()).collect()
+        } else if mode == "pair" {
+            // the IDPF value pair of Poplar1: two successive elements of the stream per value
+            let mut out = Vec::new();
+            for _ in 0..count.div_ceil(2) {
+                let v = prio::vdaf::poplar1::Poplar1IdpfValue::<F>::generate(&mut rng, &());
+                let b = v.get_encoded().unwrap();
+                let h = b.len() / 2;
+                out.push(b[..h].to_vec());
+                out.push(b[h..].to_vec());
+            }
+            out.truncate(count);
+            out
         } else {
             (0..count).map(|_| F::generate(&mut rng, &()).get_encoded().unwrap()).collect()
         }
